@@ -46,6 +46,10 @@ func clampTick(t int64) int64 {
 }
 
 // poolState reads the pool as the implementation reports it.
+// roundTicks are ticks whose square-root price is a short decimal (see Generate): prices 0.25 0.81 0.9801 1
+// 1.0201 1.0404 1.21 2.25 4, i.e. square roots 0.5 0.9 0.99 1 1.01 1.02 1.1 1.5 2.
+var roundTicks = []int64{-7500000, -1900000, -199000, 0, 20100, 40400, 210000, 1250000, 3000000}
+
 func (w *world) poolState(ctx sdk.Context, p *refPool) (tick int64, sqrt osmomath.BigDec, liq osmomath.Dec) {
 	pool, err := w.n.App.ConcentratedLiquidityKeeper.GetConcentratedPoolById(ctx, p.id)
 	if err != nil {
@@ -89,6 +93,12 @@ func (w *world) step(i int, st simcore.Step) bool {
 		}
 		sp := spacings[int(st.Arg(2))%len(spacings)]
 		sf := osmomath.MustNewDecFromStr(spreads[int(st.Arg(3))%len(spreads)])
+		if w.round {
+			sp = 100
+			if st.Arg(3)%4 != 3 {
+				sf = osmomath.ZeroDec()
+			}
+		}
 		sender := n.Accts[int(st.Arg(0))%w.users]
 		res := deliver(&clmodel.MsgCreateConcentratedPool{Sender: sender.String(), Denom0: d0, Denom1: q, TickSpacing: sp, SpreadFactor: sf})
 		if !res.OK() {
@@ -156,6 +166,27 @@ func (w *world) step(i int, st simcore.Step) bool {
 			lo, hi = clampTick(base-p.spacing), clampTick(base+p.spacing)
 		}
 		amt0, amt1 := amountOf(st.Arg(5), st.Arg(6)), amountOf(st.Arg(7), st.Arg(8))
+		if w.round && st.Arg(2) != 0 && st.Arg(2) != 7 {
+			// boundaries on ticks with short-decimal square-root prices, whole-number liquidity
+			first := len(w.poolPositions(p)) == 0
+			i, j := int(a)%len(roundTicks), int(a+b)%len(roundTicks)
+			if first {
+				i, j = int(a)%4, 4+int(b)%(len(roundTicks)-4) // straddles price 1
+			}
+			if i == j {
+				j = (i + 1) % len(roundTicks)
+			}
+			if i > j {
+				i, j = j, i
+			}
+			lo, hi = roundTicks[i], roundTicks[j]
+			amt1 = pow10(4 + st.Arg(7)%6).MulRaw([]int64{1, 2, 5}[st.Arg(5)%3])
+			amt0 = amt1.MulRaw(1000) // ample: the quote side decides the liquidity
+			if first {
+				amt0 = amt1 // sets the price to exactly 1
+			}
+			run.Probe("round-world-position")
+		}
 		if len(w.poolPositions(p)) == 0 {
 			// first position sets the price amt1/amt0: steer it into the run's price regime
 			switch w.run.Plan.Cfg("price", 0) {
@@ -582,7 +613,11 @@ func (w *world) swap(i int, st simcore.Step, fk string, fa int64) bool {
 		k := int(st.Arg(7))
 		acc, seen := rnew(), 0
 		for _, s := range wr.steps {
-			if exactIn {
+			if exactIn && p.spread.IsZero() {
+				// without a spread factor every bucket consumes a whole number of input units
+				// (its need rounded up): the sum of those lands exactly on the tick, nothing left over
+				acc = radd(acc, rfromInt(ceilRat(s.in)))
+			} else if exactIn {
 				acc = radd(acc, radd(s.in, s.fee))
 			} else {
 				acc = radd(acc, s.out)
@@ -675,6 +710,20 @@ func (w *world) swap(i int, st simcore.Step, fk string, fa int64) bool {
 	}
 	paidIn := inBefore.Sub(n.Balance(n.Ctx, trader, inDenom))
 	gotOut := n.Balance(n.Ctx, trader, outDenom).Sub(outBefore)
+	{
+		// reach: did the swap stop with the price exactly on a position boundary?
+		_, sqAfter, _ := w.poolState(n.Ctx, p)
+		for _, q := range w.poolPositions(p) {
+			for _, b := range []int64{q.lower, q.upper} {
+				if s, err := clmath.TickToSqrtPrice(b); err == nil && s.Equal(sqAfter) {
+					run.Probe(fmt.Sprintf("swap-ended-exactly-on-boundary/zeroForOne=%v/exactIn=%v", zeroForOne, exactIn))
+					if st.Arg(4) == 3 && p.spread.IsZero() && exactIn && st.Arg(6) == 0 {
+						run.Probe(fmt.Sprintf("swap-consumed-exactly-at-boundary/zeroForOne=%v", zeroForOne))
+					}
+				}
+			}
+		}
+	}
 	p.ops++
 	if ideal.feasible {
 		_, sq0, _ := w.poolState(ectx, p)
@@ -713,7 +762,11 @@ func (w *world) swap(i int, st simcore.Step, fk string, fa int64) bool {
 
 	// curve bound
 	if !ideal.feasible {
-		run.Fail("C03", "executed-beyond-curve", "swap", "the swap executed although the reference curve runs out of initialised ticks before filling %s", amt)
+		short := "?"
+		if ideal.short != nil {
+			short = ideal.short.FloatString(6)
+		}
+		run.Fail("C03", "executed-beyond-curve", "swap", "the swap executed although the reference curve runs out of initialised ticks before filling %s (unfilled %s after %d buckets; paid %s got %s)", amt, short, len(ideal.steps), paidIn, gotOut)
 		if run.Enabled("C03") {
 			return false
 		}
